@@ -11,7 +11,7 @@ COQ_TARGETS = ["Props/C12.vo", "Props/C12_fp.vo", "Props/C12_events.vo", "Props/
 PROPS_FILES = ["C12", "C12_fp", "C12_events", "C12_fl"]
 THEOREMS = ["C12_unit_disc_accepts", "C12_unit_disc_rejects", "C12_unit_ball_accepts", "C12_unit_ball_rejects", "C12_unit_sphere_accepts", "C12_unit_sphere_rejects", "C12_unit_circle_accepts", "C12_unit_circle_rejects", "C12_fingerprints", "C12_circle_norm", "C12_sphere_norm", "C12_disc_ball_norm", "C12_circle_angle_doubling", "C12_sphere_z_linear",
             "C12_u_pm1_range", "C12_unit_circle_real", "C12_circle_origin_rejected", "C12_unit_circle_norm", "C12_unit_sphere_norm", "C12_unit_disc_norm", "C12_unit_ball_norm",
-            "C12_accept_fl_def", "C12_disc_accept_fl_norm", "C12_ball_accept_fl_norm", "C12_disc_sum_fl_value", "C12_disc_accept_fl_complete", "C12_ball_accept_fl_complete"]
+            "C12_accept_fl_def", "C12_disc_accept_fl_norm", "C12_ball_accept_fl_norm", "C12_disc_sum_fl_value", "C12_disc_accept_fl_complete", "C12_ball_accept_fl_complete", "C12_fl_source"]
 TRUSTED_BASE = [
     "Coq 8.16.1 kernel; stdlib real axioms; Proofs/MultiProofs.v: norm identities of von Neumann's circle and Marsaglia's sphere transforms, "
     "angle doubling, z = 1 - 2s, lifted by induction over the rejection loop to every result of the models coq/Model/Multi.v; the uniform draw "
@@ -27,6 +27,11 @@ TRUSTED_BASE = [
 ASSUMPTIONS = ["UnitCircle returned [NaN, NaN] for the candidate (0,0) on the pinned tree: repaired by fix 4622ae6 (the origin is rejected); "
                "Props/C12.v now proves that every result of the model consists of real numbers (C12_unit_circle_real)"]
 FAMS = ["unitcircle", "unitdisc", "unitsphere", "unitball"]
+
+
+def r32(x):
+    import struct
+    return struct.unpack("<f", struct.pack("<f", x))[0]
 
 
 def correspond(ctx):
@@ -74,6 +79,7 @@ def correspond(ctx):
     res = M.run(ctx, jobs, "C12")
     oracle_failures, mismatches = [], []
     stats = {"match": 0, "mismatch": 0, "unjudged": 0}
+    accept_stats = {}
     maxdev = {}
     for (fam, ty, ps, words), r in zip(jobs, res):
         if r["vals"] is None:
@@ -94,6 +100,24 @@ def correspond(ctx):
         elif nrm > 1.0 + 2 * eps:
             oracle_failures.append({"property": PID, "class": "unit-norm", "harness_line": r["line"][:300],
                                     "what": "%s<%s>: norm %.17g > 1" % (fam, ty, nrm)})
+        # IEEE acceptance oracle (UnitDisc / UnitBall): the first candidate is x_i = k_i * 2^-51 - 1 (2^-22 in binary32), exact; the float test
+        # fl(fl(x1*x1) + fl(x2*x2)) [+ fl(x3*x3)] <= 1 of Props/C12_fl.v (disc_accept_fl / ball_accept_fl) is recomputed here in IEEE arithmetic
+        # (binary32 through binary64 with one rounding per operation: exact products, innocuous double rounding for +) and decides, boundary
+        # cases included, whether the crate must return exactly that candidate
+        if fam in ("unitdisc", "unitball"):
+            dim = 3 if fam == "unitball" else 2
+            rr = (lambda z: z) if ty == "f64" else r32
+            xs = [((w >> 12) * 2.0 ** -51 - 1.0) if ty == "f64" else ((w >> 41) * 2.0 ** -22 - 1.0) for w in words[:dim]]
+            ssum = rr(rr(xs[0] * xs[0]) + rr(xs[1] * xs[1]))
+            if dim == 3:
+                ssum = rr(ssum + rr(xs[2] * xs[2]))
+            accept = ssum <= 1.0
+            accept_stats[(fam, ty, accept, ssum == 1.0)] = accept_stats.get((fam, ty, accept, ssum == 1.0), 0) + 1
+            same = [float(a) for a in v] == xs
+            if accept != same:
+                oracle_failures.append({"property": PID, "class": "unit-accept", "harness_line": r["line"][:300],
+                                        "what": "%s<%s>: first candidate %s has float squared norm %.17g (%s 1): the IEEE test %s it, the crate returned %s"
+                                                % (fam, ty, xs, ssum, "<=" if accept else ">", "accepts" if accept else "rejects", v)})
         c = r["code"]
         if c is not None:
             stats["match" if c == 0 else "mismatch" if c == 1 else "unjudged"] += 1
@@ -124,7 +148,8 @@ def correspond(ctx):
                 "(same words consumed, every component inside its enclosure) and the norm predicate on the real output; distinct by first 4 words",
         "samples": [res[0]["line"][:200], res[0]["out"]],
         "mismatches": mismatches, "oracle_failures": oracle_failures,
-        "extra": {"crafted_boundary_candidates": crafted, "model_vs_crate": stats, "max_norm_deviation_ulp": maxdev, "bulk_norm_samples": bulk},
+        "extra": {"crafted_boundary_candidates": crafted, "model_vs_crate": stats, "max_norm_deviation_ulp": maxdev, "bulk_norm_samples": bulk,
+                  "ieee_accept_oracle": {"%s/%s/%s/%s" % (f, t, "accept" if a else "reject", "on-boundary" if b else "off-boundary"): n for (f, t, a, b), n in sorted(accept_stats.items())}},
     }
 
 
